@@ -168,6 +168,10 @@ func sectionViolations(fs []hf, k kind, limit int) []string {
 			}
 			if f.Value != "" {
 				pseudoEarlierNonEmpty[f.Name] = true
+			} else if known {
+				// RFC 9114 4.3.1: "contains invalid values for those pseudo-header fields is malformed";
+				// no pseudo-header field has a valid empty value
+				add("pseudo-empty-value")
 			}
 			continue
 		}
